@@ -336,6 +336,7 @@ class Compiled:
             self.prog = None
             self.il_error = e
         self.cast = cparse.parse_behaviour(spec.text)
+        self.c_unsequenced = ceval.has_unsequenced(self.cast, env.c_routines)
 
     def static_errors(self):
         b = self.body
@@ -355,6 +356,8 @@ class Compiled:
         return m
 
     def run_c(self, slots, vec, D=frozenset()):
+        if self.c_unsequenced:
+            raise ceval.CUndefined("unsequenced modification and access of an object")
         w, locs = build_c_world(self.spec, self.ops, slots, vec)
         it = ceval.Interp(self.env.c_routines, D)
         out = it.run(self.cast, w, locs)
